@@ -47,6 +47,7 @@ type Cfg struct {
 	SchedSeed   uint64      `json:"sched_seed"`
 	PCT         int     `json:"pct"`
 	PCTSteps    int     `json:"pct_steps"`
+	ChildFirstP float64 `json:"child_first_p,omitempty"`
 	DataSeed    uint64      `json:"data_seed"`
 }
 
@@ -84,6 +85,9 @@ func (H) Gen(p string, seed uint64, tier string) *hx.Case {
 	cfg.YieldP = []float64{0, 0.05, 0.2, 0.5}[r.Intn(4)]
 	if r.Chance(0.3) {
 		cfg.PCT, cfg.PCTSteps = r.Range(1, 4), []int{50, 300, 2000, 10000}[r.Intn(4)]
+	}
+	if r.Chance(0.25) {
+		cfg.ChildFirstP = []float64{0.2, 0.6, 1}[r.Intn(3)]
 	}
 	if r.Chance(0.3) {
 		cfg.TimerP = 0.1
@@ -641,7 +645,7 @@ func (H) Run(t *testing.T, c *hx.Case) *hx.Outcome {
 		r.bl = append(r.bl, &mblock{raw: raw, hash: h, spec: bs, addPhase: -1, invPhase: -1, trPhase: -1})
 		r.byHash[h.Hash] = i
 	}
-	scfg := simrt.Config{Seed: cfg.SchedSeed, YieldP: cfg.YieldP, TimerP: cfg.TimerP, MaxConsec: cfg.MaxConsec, PCT: cfg.PCT, PCTSteps: cfg.PCTSteps, StepBudget: 5_000_000}
+	scfg := simrt.Config{Seed: cfg.SchedSeed, YieldP: cfg.YieldP, TimerP: cfg.TimerP, MaxConsec: cfg.MaxConsec, PCT: cfg.PCT, PCTSteps: cfg.PCTSteps, ChildFirstP: cfg.ChildFirstP, StepBudget: 5_000_000}
 	res := simrt.Run(scfg, func() {
 		simrt.Sleep(time.Hour) // leave the zero time
 		r.open()
